@@ -10,4 +10,75 @@ LeadersSplit == [p \in Parts |-> IF p = "p1" THEN "b1" ELSE "b2"]
 AllInv == /\ OrderOK /\ NoDupOutcome /\ NoMarkerOutcome /\ NoForeign /\ NoNilDeref
           /\ QuiescentDone
 IdemInv == /\ NoDoubleAppend /\ SuccessInLog /\ NoAddAssert
+
+-----------------------------------------------------------------------------
+(* Conducted replay (DESIGN.md 3.3): instances cfg/MCProducer.conduct.*.cfg record EVERY action (Record <- RecordOn)
+   and restrict the interleavings to the "hook normal form", i.e. to what a conductor sitting at the hook points of
+   async_producer.go can bring about on the real goroutines:
+   - steps without a hook happen as soon as they are enabled (partition worker start-up, its queued sub-steps other than
+     the flush of a level, the hand-over of a buffer or of a retryBatch set to the bridge goroutine);
+   - a partition worker is only let go (pp.recv, pp.flush) while the broker workers it may hand something to sit idle in
+     their select loop: what it offers is taken at once, and never competes with a response or a flush inside the
+     worker's select (a choice of the Go runtime that no hook can steer);
+   - a broker worker that holds a message (slot `in` full = the goroutine sits at bp.recv) cannot send or handle a
+     response before it has dealt with that message; a response that arrived while the slot was empty is handled before
+     any message that is offered later (the goroutine sits at bp.resp).
+   The restriction only selects behaviours; every behaviour it generates is a behaviour of Spec. *)
+RecordOn == TRUE
+EmitSteps == Quiescent => PrintT(<<"CONDUCT", ToJson(steps)>>)
+
+MaxOf(S) == CHOOSE x \in S : \A y \in S : y <= x
+LastIdx(P(_)) == LET S == {k \in 1..Len(steps) : P(steps[k])} IN IF S = {} THEN 0 ELSE MaxOf(S)
+\* the answer of worker i's outstanding request arrived before the message now in its slot was offered
+AnswerFirst(i) == LET h == LastIdx(LAMBDA r : r.a = "handle" /\ r.bp = i)
+                      s == LastIdx(LAMBDA r : r.a = "ppstep" /\ r.op = "send" /\ r.to = i)
+                  IN h < s
+PpStepEager(p) == /\ pp[p].todo # <<>>
+                  /\ LET op == Head(pp[p].todo) IN
+                     /\ op[1] # "flush"
+                     /\ op[1] = "send" => bps[op[2]].in = <<>>
+                     /\ (op[1] = "fwd" /\ pp[p].bp = 0) => CanGet(leader[p])
+PpStartEager(p) == ~pp[p].started /\ pp[p].todo = <<>> /\ ppQ[p] # <<>> /\ CanGet(view[p])
+BpSendEager(i) == bps[i].used /\ ~BufEmpty(bps[i].buffer) /\ ~bps[i].out.busy /\ bps[i].in = <<>>
+RbSendEager(r) == r.stage = "send" /\ ~bps[r.target].out.busy
+EagerEnabled == \/ \E p \in Parts : PpStartEager(p) \/ PpStepEager(p)
+                \/ \E i \in BpIds : BpSendEager(i)
+                \/ \E r \in rbs : RbSendEager(r)
+EagerStep == \/ \E p \in Parts : (PpStartEager(p) /\ LPpStart(p)) \/ (PpStepEager(p) /\ LPpStep(p))
+             \/ \E i \in BpIds : BpSendEager(i) /\ LBpSend(i)
+             \/ \E r \in rbs : RbSendEager(r) /\ LRbSend(r)
+\* a broker worker sits in its select loop (not at bp.recv with a message, not at bp.resp with an answer)
+BpIdle(i) == bps[i].in = <<>> /\ ~(bps[i].out.busy /\ bps[i].out.res # "pending")
+\* the workers partition p may hand something to when it is let go: they must be idle, so that what p offers is taken at
+\* once and never competes (in the worker's select, decided by the Go runtime) with a response or a flush
+TargetsIdle(p) == \A i \in BpIds : (bps[i].used /\ (i = pp[p].bp \/ reg[leader[p]] = i \/ reg[view[p]] = i)) => BpIdle(i)
+HookStep == \/ LRhDeq
+            \/ (inSlot # <<>> /\ (pp[inSlot[1].part].started \/ TargetsIdle(inSlot[1].part)) /\ LDispRecv)
+            \/ \E p \in Parts : TargetsIdle(p) /\ (LPpRecv(p) \/ (pp[p].todo # <<>> /\ Head(pp[p].todo)[1] = "flush" /\ LPpStep(p)))
+            \/ \E i \in BpIds : \/ (bps[i].used /\ bps[i].in # <<>> /\ (bps[i].out.busy /\ bps[i].out.res # "pending" => ~AnswerFirst(i)) /\ LBpRecv(i))
+                                 \/ (bps[i].used /\ bps[i].out.busy /\ bps[i].out.res # "pending"
+                                     /\ (IF bps[i].in = <<>> THEN TRUE ELSE AnswerFirst(i)) /\ LBpResp(i))
+            \/ \E r \in rbs : LRbStart(r)
+\* requests to one broker travel over one connection and are answered in the order they were written
+SentAt(i) == LastIdx(LAMBDA r : r.a \in {"bpsend", "rbsend"} /\ r.bp = i)
+FirstOnConnection(i) == \A j \in BpIds : (j # i /\ bps[j].used /\ bps[j].broker = bps[i].broker /\ bps[j].out.busy /\ bps[j].out.res = "pending")
+                                          => SentAt(i) < SentAt(j)
+\* the application has at most SubmitWindow messages without an outcome (NMsgs = it submits whenever it can; smaller windows
+\* spread the submissions over the behaviour, so that fresh messages meet partitions that are in a retry phase or past one).
+\* Instances override it with W1..W3
+SubmitWindow == NMsgs
+W1 == 1
+W2 == 2
+W3 == 3
+Pending == Cardinality({m \in Msgs : m < nextSub /\ outcome[m] = "none"})
+\* no partition worker is blocked handing something to a broker worker (it sits at a hook or waits for input): an answer
+\* released now cannot compete with an offer inside a worker's select
+NoOfferPending == \A p \in Parts : IF pp[p].todo = <<>> THEN TRUE ELSE Head(pp[p].todo)[1] = "flush"
+ConductNext == IF EagerEnabled THEN EagerStep /\ UNCHANGED hist
+               ELSE \/ (Pending < SubmitWindow /\ LSubmit)
+                    \/ \E i \in BpIds : bps[i].used /\ bps[i].out.busy /\ bps[i].out.res = "pending" /\ NoOfferPending /\ FirstOnConnection(i)
+                                         /\ LBrokerHandle(i)
+                    \/ LLeaderMove
+                    \/ (HookStep /\ UNCHANGED hist)
+ConductSpec == Init /\ [][ConductNext]_vars
 ====
